@@ -70,10 +70,21 @@ func (s *Netceptor) listen(ctx context.Context, service string, tlscfg *tls.Conf
 		tlscfg = tlscfg.Clone()
 		tlscfg.NextProtos = []string{"netceptor"}
 		if tlscfg.ClientAuth == tls.RequireAndVerifyClientCert {
+			// The verifier the TLS profile came with (it enforces the profile's pinned client fingerprints).
+			profileVerify := tlscfg.VerifyPeerCertificate
 			tlscfg.GetConfigForClient = func(hi *tls.ClientHelloInfo) (*tls.Config, error) {
 				clientTLSCfg := tlscfg.Clone()
 				remoteNode := strings.Split(hi.Conn.RemoteAddr().String(), ":")[0]
-				clientTLSCfg.VerifyPeerCertificate = ReceptorVerifyFunc(tlscfg, [][]byte{}, remoteNode, ExpectedHostnameTypeReceptor, VerifyClient, s.Logger)
+				nameVerify := ReceptorVerifyFunc(tlscfg, [][]byte{}, remoteNode, ExpectedHostnameTypeReceptor, VerifyClient, s.Logger)
+				clientTLSCfg.VerifyPeerCertificate = func(rawCerts [][]byte, verifiedChains [][]*x509.Certificate) error {
+					if profileVerify != nil {
+						if err := profileVerify(rawCerts, verifiedChains); err != nil {
+							return err
+						}
+					}
+
+					return nameVerify(rawCerts, verifiedChains)
+				}
 
 				return clientTLSCfg, nil
 			}
